@@ -1,15 +1,22 @@
 #!/bin/bash
-# tools/seed_confirm_all.sh   official protocol: for every seeded change, git -C /repo apply, run the detecting check's
-# quick tier from /verif itself, git checkout. Writes seeded/DETECTION.log. Evidence files are rewritten by these runs,
-# so run every quick check once more on the clean tree afterwards (done at the end).
+# tools/seed_confirm_all.sh [pattern]   the official protocol for every seeded change (or those matching pattern):
+#   git -C /repo apply <patch>; ./check <detecting check> quick (from /verif itself, which rebuilds against /repo);
+#   git -C /repo checkout -- .     Writes seeded/DETECTION.log.
+# Evidence files are rewritten by these runs, so all 19 quick checks are run once more on the clean tree at the end.
+# Do not edit /verif/harness or /repo while this runs.
 cd /verif
+PAT="${1:-C}"
 : > seeded/DETECTION.log
-for d in seeded/C*-m*; do
+[ -z "$(git -C /repo status --porcelain)" ] || { echo "/repo is not clean" | tee -a seeded/DETECTION.log; exit 2; }
+for d in seeded/${PAT}*-m*; do
+  [ -f "$d/patch.diff" ] || continue
   C=$(jq -r '.detected_by.check' $d/meta.json)
-  echo "== $(basename $d)" >> seeded/DETECTION.log
-  tools/seed_run.sh /verif/$d/patch.diff quick $C >> seeded/DETECTION.log 2>&1
-  git -C /repo status --porcelain | grep -q . && { echo "REPO NOT CLEAN after $d" >> seeded/DETECTION.log; git -C /repo checkout -- .; }
+  git -C /repo apply "/verif/$d/patch.diff" || { echo "$(basename $d) patch does not apply" >> seeded/DETECTION.log; continue; }
+  OUT=$(./check "$C" quick 2>&1); RC=$?
+  git -C /repo checkout -- .
+  KEYS=$(echo "$OUT" | grep -o "^  key=[^ ]*" | sed 's/  key=//' | sort -u | head -4 | tr '\n' ' ')
+  echo "$(basename $d) $C quick exit=$RC keys=${KEYS:--} :: $(echo "$OUT" | grep -E "^$C quick:|INCONCLUSIVE" | head -1 | cut -c1-140)" >> seeded/DETECTION.log
 done
-echo "== clean tree" >> seeded/DETECTION.log
+echo "== clean tree ($(git -C /repo rev-parse --short HEAD))" >> seeded/DETECTION.log
 for i in 01 02 03 04 05 06 07 08 09 10 11 12 13 14 15 16 17 18 19; do ./check C$i quick 2>&1 | tail -1 >> seeded/DETECTION.log; done
 echo finished >> seeded/DETECTION.log
